@@ -549,6 +549,9 @@ class sptenmat:
 
         newsubs = []
         newvals = []
+        # position in newvals of every entry appended by this call: an index
+        # repeated inside a key addresses the same entry again (last value wins)
+        pending = {}
 
         k = -1
 
@@ -565,7 +568,10 @@ class sptenmat:
 
                 k += 1
 
-                if indx.size == 0:
+                if indx.size == 0 and (rsubs[i], csubs[j]) in pending:
+                    newvals[pending[(rsubs[i], csubs[j])]] = value[k]
+                elif indx.size == 0:
+                    pending[(rsubs[i], csubs[j])] = len(newvals)
                     newsubs.append(np.hstack([rsubs[i], csubs[j]]))
                     newvals.append(value[k])
                 else:
